@@ -18,7 +18,7 @@ _USE_PATTERN_MATCHING = (sys.version_info >= (3, 10))
 
 
 class PyRTLProcess(BaseProcess):
-    __slots__ = ("is_comb", "runnable", "critical", "run")
+    __slots__ = ("is_comb", "runnable", "critical", "clocked", "run")
 
     def __init__(self, *, is_comb):
         self.is_comb  = is_comb
@@ -28,6 +28,7 @@ class PyRTLProcess(BaseProcess):
     def reset(self):
         self.runnable = self.is_comb
         self.critical = False
+        self.clocked  = False
 
 
 class _PythonEmitter:
@@ -466,6 +467,17 @@ def edge_waker(process, polarity):
     return waker
 
 
+def clock_edge_waker(process, polarity):
+    # Used instead of `edge_waker` for the clock of a domain with asynchronous reset, whose process
+    # is also woken up by the reset, to let it know that an active clock edge has happened.
+    def waker(curr, next):
+        if next == polarity:
+            process.runnable = True
+            process.clocked = True
+        return True
+    return waker
+
+
 def memory_waker(process):
     def waker():
         process.runnable = True
@@ -534,15 +546,28 @@ class _FragmentCompiler:
             else:
                 domain = fragment.domains[domain_name]
                 clk_polarity = 1 if domain.clk_edge == "pos" else 0
-                self.state.add_signal_waker(domain.clk, edge_waker(domain_process, clk_polarity))
-                if domain.async_reset and domain.rst is not None:
+                async_reset = domain.async_reset and domain.rst is not None
+                if async_reset:
+                    # The process is woken up by the rising edge of the reset as well; anything other
+                    # than the reset itself must happen only on the active edge of the clock.
+                    self.state.add_signal_waker(domain.clk, clock_edge_waker(domain_process, clk_polarity))
                     self.state.add_signal_waker(domain.rst, edge_waker(domain_process, 1))
+                    emitter.append(f"clocked = process.clocked")
+                    emitter.append(f"process.clocked = False")
+                else:
+                    self.state.add_signal_waker(domain.clk, edge_waker(domain_process, clk_polarity))
 
                 for (signal, _) in lhs_masks.masks():
                     signal_index = self.state.get_signal(signal)
                     emitter.append(f"next_{signal_index} = slots[{signal_index}].next")
 
-                _StatementCompiler(self.state, emitter)(domain_stmts)
+                if async_reset:
+                    emitter.append(f"if clocked:")
+                    with emitter.indent():
+                        emitter.append("pass")
+                        _StatementCompiler(self.state, emitter)(domain_stmts)
+                else:
+                    _StatementCompiler(self.state, emitter)(domain_stmts)
 
                 if domain.rst is not None:
                     rhs = _RHSValueCompiler(self.state, emitter, mode="curr")
@@ -573,6 +598,8 @@ class _FragmentCompiler:
                         data = emitter.def_var("write_data", f"({(1 << len(port._data)) - 1:#x} & {data})")
                         en = rhs(Cat(bit.replicate(port._granularity) for bit in port._en))
                         en = emitter.def_var("write_en", f"({(1 << len(port._data)) - 1:#x} & {en})")
+                        if async_reset:
+                            en = emitter.def_var("write_en", f"({en} if clocked else 0)")
                         emitter.append(f"slots[{memory_index}].write({addr}, {data}, {en})")
                         write_vals[idx] = addr, data, en
 
@@ -582,6 +609,8 @@ class _FragmentCompiler:
 
                         en = rhs(port._en)
                         en = f"(1 & {en})"
+                        if async_reset:
+                            en = f"(clocked and {en})"
                         emitter.append(f"if {en}:")
                         with emitter.indent():
                             addr = rhs(port._addr)
@@ -616,6 +645,7 @@ class _FragmentCompiler:
 
             exec_locals = {
                 "slots": self.state.slots,
+                "process": domain_process,
                 **_ValueCompiler.helpers,
                 **_StatementCompiler.helpers,
             }
